@@ -171,6 +171,8 @@ def member_tokens(log, group_id="g"):
                 toks.append(f"R{e['id']}:f:{f['coordinator_id']}" if code == 0 else f"R{e['id']}:k:{code}")
             elif a in ("C", "O"):
                 cs = _codes_commit(f)
+                if a == "O" and f.get("error_code"):
+                    cs = [f["error_code"]]      # OffsetFetch v2+: a group-level error is in the top-level field only
                 toks.append(f"R{e['id']}:k:" + (",".join(map(str, cs)) if cs else "-"))
             else:
                 toks.append(f"R{e['id']}:k:{f['error_code']}")
